@@ -1,4 +1,5 @@
 import I2N.Lemmas.TravStates
+import I2N.Lemmas.TravStatesRm
 import I2N.Model.TravMon
 /-!
 # C01 — Every test starts only with its required object states available
@@ -412,6 +413,175 @@ theorem f10_swarm_scope_disabled :
     mayUse exSt10 2 1 0 = false ∧
     (sharedResults exSt10 (resume exSt10 exSt10_2 1 exNoOut 100).1 1).all (fun r => r.status == "PASS") = true :=
   ⟨by decide +kernel, runSched_reachS exSt10 3 [] [] 100 (by decide) _ (by decide +kernel) _ ReachS.init,
+    by decide +kernel⟩
+
+/-! ## the semantic core WITH state removal on pre-parsed graphs: `start_has_states_removal_partial`
+
+`NoRemoval` is dropped.  What replaces it (all decidable): `Clean.WellFormed g ncls` (the hypotheses of C05's run-level
+theorem: edges recorded at both ends, one copy per class and worker, flat root without parents, registers for every
+class, …), `SemHypR g` = `SemHyp g` with `NoRemoval` replaced by `NoCopyBack` (`pool_filter` ∈ {reuse, block}: backing
+out never copies states from the shared pool into the own one) and `RemovableSingle` (a class one of whose set states
+has an `f…` unset mode has ONE parsed copy — in particular every graph with a single worker,
+`removableSingle_of_one_worker`); nothing hidden initially (`ReachS … []`), a step of a worker of the run with positive
+fuel.
+
+Invariant (`Lemmas/TravStatesRm.lean`): `SemR` = `Prov` ∧ `FinSrcR` — the set states of a traversed parsed copy are
+sourced, OR the copy is removable and cleanup-ready for its owner (`reverse_node` is only reached on a cleanup-ready
+node, and `droppedCleanup` registers only grow).  At the start of a dependant `n` the second alternative is refuted by
+C05's invariant `CInv` on the state the step ends in: the worker awaits the test on `n`, so it has not dropped `n`.
+
+`RemovableSingle` is necessary: `removed_state_stale_location`. -/
+
+/-- With removal: whenever a `resume` step (positive fuel) of a worker `w` of the run emits a `start` event on a
+pre-parsed graph, it is the start of the test proper of a node `n` that `w` owns, told the locations `locs` = the
+`get_location` entries of `n` in the state `sd` in which the start was decided, and every state `vs` that `n` gets
+through a setup edge from a parsed parent relevant to `w` is — in `sd`, i.e. not removed — in `w`'s own pool, or in
+the shared pool, or in the pool of a worker `v` of the run whose location is contained in the entry of `vs`'s vm in
+`locs` and which `w` may use, or the parent's class has a result that did not pass.
+
+Partial w.r.t. the full C01 statement in the hypotheses of `start_has_states_partial` (minus `NoRemoval`) and in:
+pre-parsed graph, `NoCopyBack`, `RemovableSingle`. -/
+theorem start_has_states_removal_partial (g : Graph) {ncls : Nat} (hW : Clean.WellFormed g ncls) (hy : SemHypR g)
+    (hN : NamesInj g) (hP : PreNamesFresh g) {store : Store} (hI : InitShared store) {s : State}
+    (hr : ReachS g ncls store [] s) (w : Nat) (hw : w < g.workers.length) (out : Outcome) (fuel : Nat) (hfuel : 0 < fuel)
+    (wid cname uid : String) (locs : List (String × String)) (k : Nat)
+    (he : Event.start wid cname uid locs k ∈ (resume g s w out fuel).2) :
+    ∃ n sd, cname = clsName g n .plain ∧ locs = (sd.nd n).getLoc ∧ n < g.nodes.length ∧ (g.node n).owner = some w ∧
+      Trv g [] sd ∧
+      ∀ e ∈ (g.node n).setup, (g.node e.1).flat = false → relevant g w e.1 = true →
+        ∀ vs ∈ (g.node n).gets, vs.1 ∈ e.2 →
+          vs ∈ storeGet sd.store (g.worker w).id ∨ vs ∈ storeGet sd.store "shared" ∨
+          (∃ v, v < g.workers.length ∧ vs ∈ storeGet sd.store (g.worker v).id ∧ HasLoc locs vs.1 (workerLoc g v) ∧
+            mayUse g n w v = true) ∨
+          (∃ r ∈ sharedResults g sd e.1, r.status ≠ "PASS") := by
+  have hwf := hW.1
+  have hO : OwnerNames g := ownerNamesB_sound hW.2.1
+  have H := hW.hyp
+  have hroot := H.top.1
+  have sc : SemCtxR g store := ⟨hy, hO, hW.2.2.1, hI⟩
+  have hgw := GraphWF.of_bool hwf
+  obtain ⟨_, hev⟩ := resume_semR g hgw hroot sc s w out fuel (hr.reachR.basic hwf) (hr.reachR.uids hwf hN hP)
+    (hr.reachH.trv hgw hroot hO.uniq) (hr.semR hwf hroot sc hN hP)
+  rcases hev _ he with hns | hst
+  · exact absurd rfl (hns wid cname uid locs k)
+  obtain ⟨n, sd, h1, h2, hn, hidn, hfl, td, hav, hreg, hwl, hpc⟩ := hst wid cname uid locs k rfl
+  -- C05's invariant on the state the step ends in: `w` awaits the test on `n` and has not dropped `n`
+  have ci := (hr.reachC.cinv H hW.2.2.2.2.2.2.1).step H w out fuel hw hfuel
+  obtain ⟨dir, uid', tag, hpc'⟩ := hpc (by rw [← hwl, ci.wl]; exact hw)
+  have hnd := ci.not_dropped_in_flight w n .plain dir uid' tag 0 hpc'
+  refine ⟨n, sd, h1, h2, hn, (hO w n hn hfl).mp hidn, td, fun e hemem hfp hrel vs hvs hvm => ?_⟩
+  rcases hav e hemem hfp hrel vs hvs hvm with h | ⟨v, hvl, hv, hl⟩ | h | ⟨p', hp'l, hp'c, hp'r, hcr⟩
+  · exact Or.inr (Or.inl h)
+  · exact Or.inr (Or.inr (Or.inl ⟨v, hvl, hv, by rw [h2]; exact hl, mayUse_full hy.fullScope hn hfl w v⟩))
+  · exact Or.inr (Or.inr (Or.inr h))
+  · -- `w`'s copy of the parent class is cleanup-ready for `w`: then `w` has dropped `n`
+    exfalso
+    have hpl : e.1 < g.nodes.length := hgw.setup_lt n e hemem
+    have hpe : p' = e.1 := H.uniq w p' e.1 hp'l hpl hp'c hp'r hrel
+    rw [hpe] at hcr
+    have hsym : n ∈ (g.node e.1).cleanup.map (·.1) := (H.sym e.1 hpl n hn).mp (List.mem_map.mpr ⟨e, hemem, rfl⟩)
+    obtain ⟨q, hq, hqn⟩ := List.mem_map.mp hsym
+    have := (cleanup_ready_iff g sd e.1 w).mp hcr q hq (by rw [hqn]; exact relevant_of_idIn hidn)
+    rw [hqn] at this
+    exact hnd ⟨(g.node e.1).cls, by rw [hreg]; exact this⟩
+
+/-- (1) The single-worker case: with ONE worker no hypothesis on the removal policies is needed beyond `NoCopyBack`
+(the worker's own removals never precede its own dependants' starts) — `RemovableSingle` follows from one copy per class
+and worker (`CopyUniq`, part of `WellFormed`) and from every parsed node having an owner (`ParsedOwned`).  Every state
+a started test gets from a parsed parent is then in the worker's own pool, in the shared pool, or the parent's class
+has a result that did not pass. -/
+theorem start_has_states_removal_single_worker (g : Graph) {ncls : Nat} (hW : Clean.WellFormed g ncls)
+    (h1 : g.workers.length = 1) (hPO : ParsedOwned g)
+    (hFS : FullScope g) (hPN : PlainNodes g) (hNC : NoCopyBack g) (hPS : ProducerSets g) (hUP : UniqueProducer g)
+    (hSC : SetsClass g) (hOR : OwnersReal g)
+    (hN : NamesInj g) (hP : PreNamesFresh g) {store : Store} (hI : InitShared store) {s : State}
+    (hr : ReachS g ncls store [] s) (out : Outcome) (fuel : Nat) (hfuel : 0 < fuel)
+    (wid cname uid : String) (locs : List (String × String)) (k : Nat)
+    (he : Event.start wid cname uid locs k ∈ (resume g s 0 out fuel).2) :
+    ∃ n sd, cname = clsName g n .plain ∧ locs = (sd.nd n).getLoc ∧ n < g.nodes.length ∧ (g.node n).owner = some 0 ∧
+      Trv g [] sd ∧
+      ∀ e ∈ (g.node n).setup, (g.node e.1).flat = false → relevant g 0 e.1 = true →
+        ∀ vs ∈ (g.node n).gets, vs.1 ∈ e.2 →
+          vs ∈ storeGet sd.store (g.worker 0).id ∨ vs ∈ storeGet sd.store "shared" ∨
+          (∃ r ∈ sharedResults g sd e.1, r.status ≠ "PASS") := by
+  obtain ⟨n, sd, a1, a2, a3, a4, a5, hav⟩ := start_has_states_removal_partial g hW
+    ⟨hFS, hPN, hNC, removableSingle_of_one_worker h1 hOR hPO hW.2.2.2.2.1, hPS, hUP, hSC, hOR⟩
+    hN hP hI hr 0 (by omega) out fuel hfuel wid cname uid locs k he
+  refine ⟨n, sd, a1, a2, a3, a4, a5, fun e hemem hfp hrel vs hvs hvm => ?_⟩
+  rcases hav e hemem hfp hrel vs hvs hvm with h | h | ⟨v, hvl, hv, _, _⟩ | h
+  · exact Or.inl h
+  · exact Or.inr (Or.inl h)
+  · have hv0 : v = 0 := by omega
+    subst hv0; exact Or.inl hv
+  · exact Or.inr (Or.inr h)
+
+/-! ### non-vacuity (instances `exRm1`, `exRm2` of `Lemmas/TravStatesRm.lean`) -/
+
+theorem exRm1_hyps : Clean.WellFormed exRm1 3 ∧ exRm1.workers.length = 1 ∧ ParsedOwned exRm1 ∧ FullScope exRm1 ∧
+    PlainNodes exRm1 ∧ NoCopyBack exRm1 ∧ ProducerSets exRm1 ∧ UniqueProducer exRm1 ∧ SetsClass exRm1 ∧ OwnersReal exRm1 ∧
+    NamesInj exRm1 ∧ PreNamesFresh exRm1 ∧ ¬ NoRemoval exRm1 :=
+  ⟨by decide +kernel, by decide +kernel, by decide +kernel, by decide +kernel, by decide +kernel, by decide +kernel,
+    by decide +kernel, by decide +kernel, by decide +kernel, by decide +kernel,
+    namesInjB_sound (by decide +kernel), preFreshB_sound (by decide +kernel), by decide +kernel⟩
+
+example : ReachS exRm1 3 [] [] exRm1_2 :=
+  runSched_reachS exRm1 3 [] [] 100 (by decide) _ (by decide +kernel) _ ReachS.init
+
+set_option maxRecDepth 100000 in
+/-- one worker, `a` sets `vm1/a` with the removal policy `fi`: when `a` has passed, `b` is started with the state in
+the worker's own pool; when `b` has passed, `b` is dropped, `a` is reversed and only then the state is removed -/
+example : Event.start "net1" "1" "2a1" [("vm1", ":/pool/shared net1:/pool/swarm")] 1 ∈ (resume exRm1 exRm1_1 0 exPass 100).2 ∧
+    ("vm1", "a") ∈ storeGet (resume exRm1 exRm1_1 0 exPass 100).1.store "net1" ∧
+    Event.door "net1" "unset" [("vm1", "a")] ["own"] true ∈ (resume exRm1 exRm1_2 0 exPass 100).2 ∧
+    ("vm1", "a") ∉ storeGet (resume exRm1 exRm1_2 0 exPass 100).1.store "net1" := by
+  decide +kernel
+
+example := start_has_states_removal_single_worker exRm1 exRm1_hyps.1 exRm1_hyps.2.1 exRm1_hyps.2.2.1 exRm1_hyps.2.2.2.1
+  exRm1_hyps.2.2.2.2.1 exRm1_hyps.2.2.2.2.2.1 exRm1_hyps.2.2.2.2.2.2.1 exRm1_hyps.2.2.2.2.2.2.2.1
+  exRm1_hyps.2.2.2.2.2.2.2.2.1 exRm1_hyps.2.2.2.2.2.2.2.2.2.1 exRm1_hyps.2.2.2.2.2.2.2.2.2.2.1
+  exRm1_hyps.2.2.2.2.2.2.2.2.2.2.2.1 (by decide : InitShared ([] : Store))
+  (runSched_reachS exRm1 3 [] [] 100 (by decide) [(0, exNoOut)] (by decide +kernel) _ ReachS.init) exPass 100 (by decide)
+
+/-- two workers in one scope, the removable class parsed for one of them only: the hypotheses of the multi-worker
+theorem are satisfiable with `g.workers.length = 2` -/
+theorem exRm2_hyps : Clean.WellFormed exRm2 4 ∧ SemHypR exRm2 ∧ NamesInj exRm2 ∧ PreNamesFresh exRm2 ∧
+    exRm2.workers.length = 2 ∧ Clean.OneScope exRm2 ∧ ¬ NoRemoval exRm2 :=
+  ⟨by decide +kernel,
+    ⟨by decide +kernel, by decide +kernel, by decide +kernel, by decide +kernel, by decide +kernel, by decide +kernel,
+      by decide +kernel, by decide +kernel⟩,
+    namesInjB_sound (by decide +kernel), preFreshB_sound (by decide +kernel), by decide +kernel, by decide +kernel,
+    by decide +kernel⟩
+
+example := start_has_states_removal_partial exRm2 exRm2_hyps.1 exRm2_hyps.2.1 exRm2_hyps.2.2.1 exRm2_hyps.2.2.2.1
+  (by decide : InitShared ([] : Store))
+  (runSched_reachS exRm2 4 [] [] 100 (by decide) [(1, exNoOut), (0, exNoOut)] (by decide +kernel) _ ReachS.init)
+  1 (by decide) exPass 100 (by decide)
+
+set_option maxRecDepth 100000 in
+/-- Why `RemovableSingle` is needed — the stale location.  `exRmStale`: two workers of one scope, the class `a` (sets
+`vm1/a`, removal policy `fi`) has a copy for each, the dependant `b` is parsed for net2 only; the graph is well-formed in
+the sense of C05 and satisfies every other hypothesis of `start_has_states_removal_partial`.  net1 runs `a` (PASS: the
+state is in net1's pool), finds its copy without dependants, is the only involved worker (net2 has not picked `a` yet)
+and removes the state.  net2 then comes to its copy of `a`: the class counts as finished, so **no scan** takes place and
+the rerun rule (`max_tries = 1`) says no; net2 skips `a` and starts `b`, told the shared pool and net1's pool — the
+state is in neither, nor in net2's own pool, and the only result of the producing class is the PASS: every disjunct of
+the theorem fails.  (The argument "a late worker finds the state missing in its own scan and re-runs the producer" is
+not true of `default_run_decision`: the scan is skipped as soon as anybody has finished the class.) -/
+theorem removed_state_stale_location :
+    Clean.WellFormed exRmStale 3 ∧ Clean.OneScope exRmStale ∧ ¬ RemovableSingle exRmStale ∧
+    FullScope exRmStale ∧ PlainNodes exRmStale ∧ NoCopyBack exRmStale ∧ ProducerSets exRmStale ∧
+    UniqueProducer exRmStale ∧ SetsClass exRmStale ∧ OwnersReal exRmStale ∧
+    ReachS exRmStale 3 [] [] exRmStale_2 ∧
+    Event.door "net1" "unset" [("vm1", "a")] ["own"] true ∈
+      (resume exRmStale (runSched exRmStale 100 (initState exRmStale 3 [] []) [(0, exNoOut)]) 0 exPass 100).2 ∧
+    Event.start "net2" "1" "2a1" [("vm1", ":/pool/shared net1:/pool/swarm")] 1 ∈ (resume exRmStale exRmStale_2 1 exNoOut 100).2 ∧
+    ("vm1", "a") ∉ storeGet (resume exRmStale exRmStale_2 1 exNoOut 100).1.store "net2" ∧
+    ("vm1", "a") ∉ storeGet (resume exRmStale exRmStale_2 1 exNoOut 100).1.store "shared" ∧
+    ("vm1", "a") ∉ storeGet (resume exRmStale exRmStale_2 1 exNoOut 100).1.store "net1" ∧
+    (sharedResults exRmStale (resume exRmStale exRmStale_2 1 exNoOut 100).1 1).all (fun r => r.status == "PASS") = true :=
+  ⟨by decide +kernel, by decide +kernel, by decide +kernel, by decide +kernel, by decide +kernel, by decide +kernel,
+    by decide +kernel, by decide +kernel, by decide +kernel, by decide +kernel,
+    runSched_reachS exRmStale 3 [] [] 100 (by decide) _ (by decide +kernel) _ ReachS.init,
     by decide +kernel⟩
 
 end I2N.Props.C01
